@@ -54,6 +54,11 @@ Alphabet
              independent, hem,hem,hem dependent; thorough: + hem,hem,hem Clayton(3,1) and vg,vg,vg independent): equal end points on
              two axes give exactly equal arguments of the copula; sub-checks tails, subfamily, partition, rect (d = 2: all
              rectangles; quick d = 3: first numeric instances in the second and third coordinate).
+  extras     EXTRA_SPECS, six Clayton models outside mc.alphabets' quick list, in both tiers: the margin families missing from
+             it (merton,hem2) and extreme legal copula parameters (theta = 0.1 eta = 0.5: hem,vg and hem,vg,cgmy05; theta = 6
+             eta = 0.8: hem2,cgmy05 / merton,cgmy12 / merton,hem2,vg; with theta = 6 every |u|^-theta of the alphabet is finite).
+             Sub-checks tails, subfamily, partition, rect (d = 2: all rectangles; quick d = 3: the 8 first instances x first
+             instances), jointdensity, density (quick: first interval; d = 3: the pair [0, 2]).
              empty intervals a_k = b_k: every rectangle made of first numeric instances, each coordinate in turn collapsed to
              (b_k, b_k] ((a_k, a_k] where b_k is infinite): mass 0 by every route (`rect`, key empty-interval).
              The truncation bounds of `history` coincide with alphabet end points (-0.5, 0.7, 0.3).
@@ -130,8 +135,36 @@ Sub-checks (sub = ...)
              here; for triples through the 2-margins (which are Clayton with eta = 1/2: verified against the
              definition-based margin before use, otherwise skipped and noted). Compared only when the quadrature's own
              error estimate is below 1e-9 relative, else counted as oracle_inconclusive.
+  jointdensity (Clayton, FULL family, d = 2 and d = 3; one case per model and orthant = sign pattern, all 4 / 8 of them) mass of a
+             finite rectangle inside the orthant = integral over it of the implied joint Levy density
+             d^dF/du_1..du_d (U_1(x_1), .., U_d(x_d)) nu_1(x_1) .. nu_d(x_d), the density of the copula taken
+             (i) from the d-dimensional Clayton formula written here (2^(2-d) |w| prod_{k<d}(1 + k theta) prod |u_i|^(-theta-1)
+             (sum |u_i|^-theta)^(-1/theta-d)), at the reference tail integrals, with the densities of fresh margins, and
+             (ii) from the library: `model.copula.x_first_derivative(u)` of the copula OF THE MODEL UNDER TEST at the model's own
+             marginal_tail_integral, times the densities of the model's own margins - the joint density as the library itself
+             builds it (markovchainsde._integral_zz: nu_i(x) nu_j(y) copula.x_first_derivative(u)); convention = the PLAIN mixed
+             derivative of the copula (OPEN known finding of C11: the docstring says "times the product of the arguments"; a
+             change to the docstring's convention would have to come with a change of that caller and of this sub-check).
+             Before anything is evaluated a second Clayton copula with other parameters evaluates its value and its density on
+             2- and 3-vectors (no state per class / module / dimension); after every call of x_first_derivative its argument
+             array is compared with a copy.
+             Quadrature: tensor Gauss-Legendre rules (the integrand is analytic on a rectangle that does not meet the axes). For
+             (i), vectorised, n = 8, 12, .., 28 nodes per axis are tried in turn and rule n + 4 is taken when it agrees with
+             rule n to 1e-10 relative (else oracle_inconclusive + jointdensity_rules_did_not_converge: the density of a strongly
+             dependent copula is a ridge along U_i(x_i) = U_j(x_j) that a tensor rule resolves on narrow rectangles only; or
+             + jointdensity_tail_integral_rounds_to_zero: Merton's far tail integrals cancel to -0.0 where its density is still
+             1e-24 - the closed form of the margin, C09 - and the density of the copula cannot be evaluated at u = 0);
+             (ii) is a scalar function and is integrated by that same rule when it has at most 24 nodes per axis (else counted
+             library_density_skipped_rule_too_large): if it is the density, it is the same integrand.
+             Intervals per side of zero: the two alphabet instances and a narrow one, (0.02,0.05] / (-0.06,-0.03]; d = 2 and
+             thorough: all 3^d tuples; quick d = 3: narrow cube, second instances, one tuple of three different lengths; route
+             twins (Clayton: reinit / reused / swapped, i.e. copula parameters set through the setters, copula object replaced
+             on a used model) and the exponential models: two tuples (thorough exponential: three).
 
-Outside the alphabet (statement silent): assignment of `.copula` on a SHALLOW copy of a model (on the pinned tree `mass` is an
+Outside the alphabet (statement silent): the density of the 2-margins of a 3-d model through the library (the library has no
+density of an I-margin; `density` uses the formula written here with eta = 1/2; markovchainsde applies the d-dimensional
+copula's x_first_derivative to 2-vectors, which for d = 3 and eta != 1/2 is not the density of the 2-margin - its subject, not
+a route of LevyCopulaModel); x_first_derivative given lists / tuples (it reads u.size: rejected); assignment of `.copula` on a SHALLOW copy of a model (on the pinned tree `mass` is an
 instance attribute holding the bound method of the original, so copy.copy(m).mass keeps reading m.copula while ._mass_nd reads the
 copy's: counter shallow_copy_mass_still_bound_to_the_original; no library route makes shallow copies of models); changes of the
 caller's `models` list after construction (the constructor keeps the list itself in .models; the masses use the measures captured
@@ -150,7 +183,7 @@ Tolerances: every compared quantity is a signed sum of at most ~30 copula values
 S = max over the non-straddling coordinates of max(|U(a_i)|, |U(b_i)|) (a Levy copula is bounded by each argument), so
 re-association differences are a few ulps of S: |x-y| <= 1e-12 S + 1e-9 max(|x|,|y|); non-negativity slack 1e-13 S;
 partition sums (up to 121 terms) 1e-11 S.
-Density: rtol 1e-8 (nested quadrature) + 1e-12 min_i max(|U_i(a_i)|,|U_i(b_i)|) (the four copula values of an off-axis
+Density, jointdensity: rtol 1e-8 (nested quadrature / rule error estimate <= 1e-10) + 1e-12 min_i max(|U_i(a_i)|,|U_i(b_i)|) (the 2^d copula values of an off-axis
 rectangle are bounded by every argument; far-tail rectangles of a strongly dependent copula are pure cancellation).
 Inverse: |x' - x| <= 1e-12 + 1e-9 |x|, or U(x') = y to 1e-9 relative + 16 ulps of the margin's total mass (finite activity).
 """
@@ -173,7 +206,9 @@ RULE = (
     "contain the origin, x all alphabet split points per coordinate (zero written +0.0 and -0.0), x all index subsets, x "
     "construction routes (direct / reinit / reused / swapped), x spellings of the end points and of the index family, x all "
     "ordered pairs of copulas on one used model, x kinds of copy x object re-parametrised x target copula; identical margins; "
-    "empty intervals; a case is non-trivial when at "
+    "empty intervals; Clayton models x all orthants x tuples of finite intervals inside the orthant for the integral of the joint "
+    "density (formula written here and the library's x_first_derivative, d = 2 and 3); extra models (Merton / HEM2 margins, "
+    "theta = 0.1 and 6); a case is non-trivial when at "
     "least one mass of the real model was compared with the reference or with another route of the real code; "
     "distinct = distinct case dict (model, fixed first interval / sub-check)"
 )
@@ -189,8 +224,11 @@ ASSUMPTIONS = [
     "a deep copy (copy.deepcopy, pickle, dill) of a model is an independent model: re-parametrising one of the two through the "
     "public setters leaves the other one as it was; for |y| beyond the value of U at +-1e-12 the inverse tail integral is a "
     "point of [0, 1e-12] on the side of y (generalised inverse of a monotone function)",
-    "joint-density quadrature (Clayton only) uses scipy nested adaptive quadrature and is compared only when its own error "
-    "estimate is below 1e-9 relative",
+    "joint-density quadrature (Clayton only) uses scipy nested adaptive quadrature (2-margins) and tensor Gauss-Legendre rules "
+    "(full family) and is compared only when its own error estimate is below 1e-9 relative",
+    "the joint density implied by the library is copula.x_first_derivative(U(x)) * prod nu_i(x_i) with x_first_derivative the "
+    "plain mixed derivative of the copula, as its only caller in the library uses it (open C11 finding about its docstring); it is "
+    "integrated by the Gauss-Legendre rule that was accurate (two rules agreeing to 1e-10) for the same density written in the check",
 ]
 CHUNK = 1
 
@@ -247,6 +285,17 @@ TIE_SPECS_THOROUGH = [
 COPY_KINDS = ("deepcopy", "dill", "pickle", "shallow")
 COPY_TARGETS = [{"kind": "clayton", "theta": 3.0, "eta": 1.0}, {"kind": "independent"}]
 COPY_TARGETS_THOROUGH = COPY_TARGETS + [{"kind": "clayton", "theta": 0.7, "eta": 0.0}, {"kind": "dependent"}]
+# models outside mc.alphabets' quick list: margin families absent from it (Merton, the asymmetric zero-diffusion HEM) and
+# Clayton copulas with extreme but legal parameters (theta = 0.1: nearly independent; theta = 6: nearly completely dependent;
+# with theta = 6 every |u|^-theta of the alphabet stays finite: the smallest tail integral of the alphabet is 3.9e-31)
+EXTRA_SPECS = [
+    {"margins": ["merton", "hem2"], "copula": {"kind": "clayton", "theta": 0.7, "eta": 0.3}},
+    {"margins": ["hem", "vg"], "copula": {"kind": "clayton", "theta": 0.1, "eta": 0.5}},
+    {"margins": ["hem2", "cgmy05"], "copula": {"kind": "clayton", "theta": 6.0, "eta": 0.8}},
+    {"margins": ["merton", "cgmy12"], "copula": {"kind": "clayton", "theta": 6.0, "eta": 0.8}},
+    {"margins": ["hem", "vg", "cgmy05"], "copula": {"kind": "clayton", "theta": 0.1, "eta": 0.5}},
+    {"margins": ["merton", "hem2", "vg"], "copula": {"kind": "clayton", "theta": 6.0, "eta": 0.8}},
+]
 LRU_SWEEP = 1100  # more distinct abscissae per coordinate than the 2**10 entries of the memo of the marginal tail integral
 
 
@@ -305,6 +354,35 @@ def cases(tier):
                 if not thorough and i0 not in (0, 1):
                     continue
                 out.append({"sub": "density", "model": spec, "exp": exp, "pair": list(pair), "i0": i0})
+    # joint density of the FULL family in dimension 2 and 3, one case per (Clayton model, orthant): the formula written here
+    # and the library's own derivative of the copula. quick: every Clayton Levy model (d = 3: three rectangles per orthant);
+    # thorough: all 2^d rectangles of finite alphabet intervals per orthant, + the exponential models (three per orthant)
+    for spec, exp in models:
+        if spec["copula"]["kind"] != "clayton":
+            continue
+        d = len(spec["margins"])
+        for signs in itertools.product("pn", repeat=d):
+            out.append({"sub": "jointdensity", "model": spec, "exp": exp, "signs": list(signs),
+                        "instances": ("few" if thorough else "two") if exp else ("few" if (d == 3 and not thorough) else "all")})
+    # ... and on the models reached by the other construction routes (the copula's parameters set through the setters)
+    for spec, exp, route in _twin_list(tier):
+        if spec["copula"]["kind"] != "clayton":
+            continue
+        for signs in itertools.product("pn", repeat=len(spec["margins"])):
+            out.append({"sub": "jointdensity", "model": spec, "exp": exp, "signs": list(signs), "instances": "two", "route": route})
+    # extra models (Merton / HEM2 margins, extreme Clayton parameters): lattice sub-checks and both density sub-checks
+    for spec in EXTRA_SPECS:
+        d = len(spec["margins"])
+        for sub in ("tails", "subfamily", "partition"):
+            out.append({"sub": sub, "model": spec, "exp": False})
+        for i0 in (range(len(INTERVALS)) if (d == 2 or thorough) else FIRST):
+            out.append({"sub": "rect", "model": spec, "exp": False, "i0": i0, "others": "all" if d == 2 else "first"})
+        for signs in itertools.product("pn", repeat=d):
+            out.append({"sub": "jointdensity", "model": spec, "exp": False, "signs": list(signs), "instances": "all" if (thorough or d == 2) else "few"})
+        for pair in itertools.combinations(range(d), 2):
+            for i0 in (range(4) if thorough else (0,)):
+                if d == 2 or thorough or pair == (0, 2):
+                    out.append({"sub": "density", "model": spec, "exp": False, "pair": list(pair), "i0": i0})
     # spellings of the end points (direct models): thorough = every Levy model + the exponential Clayton ones,
     # quick = the first model of every (dimension, copula kind)
     spell, seen = [], set()
@@ -1707,6 +1785,198 @@ def _sub_density(sh, case):
             sh.violation(f"C12:density:mass:differs-from-integral-of-joint-density:d={d}:{quad_class}",
                          f"mass({_fmt(a, b)}, indices={list(I)}) = {m}, 2-d quadrature of the implied joint density = {v} (+- {err})",
                          {"a": a, "b": b, "I": list(I), "mass": m, "quadrature": v, "error_estimate": err})
+    sh.nontriv()
+
+
+# ----------------------------------------------------------------------------------------------------------------------
+# joint density of the FULL family, dimension 2 and 3 (Clayton): tensor Gauss-Legendre rules inside one orthant
+# ----------------------------------------------------------------------------------------------------------------------
+
+def _clayton_density_nd(theta, eta, us, negative):
+    """d^dF/du_1..du_d of the d-dimensional Clayton formula F(u) = 2^(2-d) w (sum |u_i|^-theta)^(-1/theta), w = eta where the
+    product of the u_i is positive and -(1-eta) where it is negative, on the tensor grid of the per-axis arrays `us` (no zero;
+    `negative` = number of axes on the negative side - NOT read off the values: a far-tail integral may round to -0.0): with s = sum |u_i|^-theta,
+        d^d/d|u_1|..d|u_d| s^(-1/theta) = prod_{k<d} (1 + k theta) * prod |u_i|^(-theta-1) * s^(-1/theta-d)   (> 0),
+    the signs of d|u_i|/du_i multiply to the sign of the product of the u_i, which cancels the sign of w: the density is
+    2^(2-d) |w| times the expression above. Written in the scale-invariant form (ratios r_i = |u_i| / min_j |u_j| >= 1):
+        min|u|^(1-d) * prod r_i^(-theta-1) * (sum r_i^-theta)^(-1/theta-d)."""
+    d = len(us)
+    w = eta if negative % 2 == 0 else 1.0 - eta
+    grids = np.meshgrid(*[np.abs(np.asarray(u, dtype=float)) for u in us], indexing="ij")
+    if w == 0.0:
+        return np.zeros_like(grids[0])
+    amin = grids[0]
+    for g in grids[1:]:
+        amin = np.minimum(amin, g)
+    rs = [g / amin for g in grids]
+    s = sum(r ** (-theta) for r in rs)
+    out = 2.0 ** (2 - d) * w * float(np.prod([1.0 + k * theta for k in range(d)])) * amin ** (1 - d) * s ** (-1.0 / theta - d)
+    for r in rs:
+        out = out * r ** (-theta - 1.0)
+    return out
+
+
+JOINT_RULES = (8, 12, 16, 20, 24, 28)  # nodes per axis n of the Gauss-Legendre rules tried in turn; rule n + JOINT_STEP is used when it
+JOINT_STEP = 4                          # agrees with rule n to 1e-10 relative (|difference| = error estimate)
+_GL = {}
+
+
+def _gl(n, lo, hi):
+    if n not in _GL:
+        _GL[n] = np.polynomial.legendre.leggauss(n)
+    x, w = _GL[n]
+    return 0.5 * (hi - lo) * x + 0.5 * (lo + hi), 0.5 * (hi - lo) * w
+
+
+def _outer(vs):
+    out = np.asarray(vs[0], dtype=float)
+    for v in vs[1:]:
+        out = np.multiply.outer(out, np.asarray(v, dtype=float))
+    return out
+
+
+def _model_margin_measures(ctx):
+    """The marginal Levy measures of the model under test through its public attributes (the margins of a route twin are
+    the re-initialised objects); the fresh margins of the reference if the attributes are not there."""
+    try:
+        nus = [mm.levy_triplet.nu for mm in ctx.model.models]
+        if len(nus) == ctx.d:
+            return nus
+    except Exception:
+        pass
+    return ctx.nus
+
+
+# finite intervals of `jointdensity` per side of zero: the two alphabet instances and a NARROW one (for a strongly dependent
+# copula the joint density is a ridge along U_i(x_i) = U_j(x_j): a tensor rule resolves it on narrow rectangles only)
+JOINT_INTERVALS = {"p": [(0.1, 0.7), (0.02, 0.1), (0.02, 0.05)], "n": [(-1.0, -0.2), (-0.2, -0.03), (-0.06, -0.03)]}
+JOINT_LIB_MAX_NODES = 24  # the library's density is a scalar function: at most 24^3 calls per rectangle
+
+
+def _joint_instances(d, which):
+    if which == "all":
+        return list(itertools.product((0, 1, 2), repeat=d))
+    if which == "few":  # narrow cube, the second alphabet instances, one tuple of three different lengths
+        return [(2,) * d, (1,) * d, tuple((0, 2, 1)[:d])]
+    return [(2,) * d, (1,) + (2,) * (d - 1)]  # "two"
+
+
+def _sub_jointdensity(sh, case):
+    """Mass of a finite rectangle inside ONE orthant against the integral over it of the implied joint Levy density
+        nu(x) = d^dF/du_1..du_d (U_1(x_1), .., U_d(x_d)) * nu_1(x_1) .. nu_d(x_d)
+    of the full d-dimensional family (d = 2 and 3), the density of the copula taken (i) from the formula written above with the
+    reference tail integrals and (ii) from the library's own ClaytonCopula.x_first_derivative of the copula OF THE MODEL at the
+    model's own marginal tail integrals - the convention of its only caller, markovchainsde._integral_zz: the PLAIN mixed
+    derivative (open finding of C11: the docstring says 'times the product of the arguments'). The integrand is analytic on
+    a rectangle that does not meet the axes: tensor Gauss-Legendre rules, see the module docstring."""
+    ctx = Ctx(case)
+    d = ctx.d
+    model = ctx.model
+    theta, eta = case["model"]["copula"]["theta"], case["model"]["copula"]["eta"]
+    signs = case["signs"]  # per coordinate "p" (positive side) or "n"
+    orth = "".join(signs)
+    full_I = tuple(range(d))
+    nus_model = _model_margin_measures(ctx)
+    xfd = getattr(getattr(model, "copula", None), "x_first_derivative", None)
+    fin = JOINT_INTERVALS
+    # a SECOND copula of the same class, other parameters, answers first in both dimensions (the value and the density of a
+    # copula are functions of its own parameters and of the argument: nothing may be kept per class / per module / per dimension)
+    try:
+        decoy = A.make_copula(DONOR_CLAYTON)
+        for u in (np.array([0.3, -2.0]), np.array([0.3, -2.0, 1.5]), np.array([-0.4, -0.1, -7.0])):
+            decoy(u.copy())
+            decoy.x_first_derivative(u.copy())
+    except Exception:
+        sh.count("decoy_copula_raised")
+    for inst in _joint_instances(d, case.get("instances", "all")):
+        a = tuple(fin[s][k][0] for s, k in zip(signs, inst))
+        b = tuple(fin[s][k][1] for s, k in zip(signs, inst))
+        try:
+            m = float(model.mass(a, b))
+        except Exception as e:
+            sh.violation(f"C12:jointdensity:mass:raises-{type(e).__name__}:d={d}:orthant={orth}", f"mass({_fmt(a, b)}) raised {e!r}", {"a": a, "b": b})
+            continue
+        S = min(max(abs(ctx.U(i, lo)), abs(ctx.U(i, hi))) for i, lo, hi in zip(full_I, a, b))
+        # (i) the formula written here, reference tail integrals, densities of fresh margins: vectorised, so the number of
+        # nodes per axis is raised until two consecutive rules agree
+        own = {}
+
+        def own_rule(n):
+            if n not in own:
+                axes = [_gl(n, lo, hi) for lo, hi in zip(a, b)]
+                U_ref = [np.array([O.tail_integral_1d(ctx.nus[i], float(x)) for x in axes[i][0]]) for i in range(d)]
+                if any(np.any(u == 0) or np.any((u < 0) != (s == "n")) for u, s in zip(U_ref, signs)):
+                    own[n] = math.nan  # a far-tail integral underflows / cancels to (-)0.0: the density cannot be evaluated there
+                else:
+                    N_ref = _outer([[float(ctx.nus[i](float(x))) for x in axes[i][0]] for i in range(d)])
+                    own[n] = float(np.sum(_outer([w for _, w in axes]) * N_ref * _clayton_density_nd(theta, eta, U_ref, orth.count("n"))))
+            return own[n]
+
+        n_used = None
+        for n in JOINT_RULES:
+            lo_v, hi_v = own_rule(n), own_rule(n + JOINT_STEP)
+            if math.isfinite(hi_v) and abs(hi_v - lo_v) <= 1e-10 * max(abs(hi_v), abs(m)) + 1e-300:
+                n_used = n + JOINT_STEP
+                break
+        if n_used is None:
+            sh.count("oracle_inconclusive")
+            sh.count("jointdensity_tail_integral_rounds_to_zero" if any(math.isnan(v) for v in own.values()) else "jointdensity_rules_did_not_converge")
+            continue
+        v_own, err_own = own[n_used], abs(own[n_used] - own[n_used - JOINT_STEP])
+        sh.count(f"jointdensity_nodes_per_axis_{n_used}")
+        # (ii) the library's density of the copula of the model, at the model's own tail integrals and margin densities, by
+        # the rule that was accurate for (i) (if the library's density is the density, it is the same integrand)
+        lib_state = "absent" if xfd is None else ("ok" if n_used <= JOINT_LIB_MAX_NODES else "too-many-nodes")
+        v_lib = None
+        if lib_state == "ok":
+            n = n_used
+            axes = [_gl(n, lo, hi) for lo, hi in zip(a, b)]
+            W = _outer([w for _, w in axes])
+            try:
+                U_lib = [[float(model.marginal_tail_integral(i, float(x))) for x in axes[i][0]] for i in range(d)]
+                N_lib = _outer([[float(nus_model[i](float(x))) for x in axes[i][0]] for i in range(d)])
+                D = np.empty(W.shape)
+                for idx in itertools.product(range(n), repeat=d):
+                    u = np.array([U_lib[k][j] for k, j in enumerate(idx)])
+                    keep = u.copy()
+                    D[idx] = float(xfd(u))
+                    if not np.array_equal(u, keep):
+                        lib_state = "modifies"
+                        sh.violation(f"C12:jointdensity:x_first_derivative:modifies-its-argument:d={d}",
+                                     f"x_first_derivative changed its argument array {keep.tolist()} into {u.tolist()}", {"u": keep.tolist(), "after": u.tolist()})
+                        break
+                if lib_state == "ok":
+                    v_lib = float(np.sum(W * N_lib * D))
+            except NotImplementedError:
+                lib_state = "absent"
+            except Exception as e:
+                lib_state = "raised"
+                sh.violation(f"C12:jointdensity:x_first_derivative:raises-{type(e).__name__}:d={d}:orthant={orth}",
+                             f"the joint density of the model (x_first_derivative at the marginal tail integrals) raised {e!r} inside {_fmt(a, b)}", {"a": a, "b": b})
+        sh.cls(f"jointdensity:d={d}:orthant={orth}:{'zero-weight' if (eta if orth.count('n') % 2 == 0 else 1.0 - eta) == 0.0 else 'positive-weight'}")
+        det = {"a": a, "b": b, "mass": m, "own_formula": v_own, "own_formula_error_estimate": err_own, "library_density": v_lib,
+               "nodes_per_axis": n_used, "scale": S}
+        # ---- mass against the integral of the density written here
+        sh.count("evaluations")
+        sh.outcome(float(m).hex())
+        if not core.close(m, v_own, rtol=1e-8, atol=1e-12 * S):
+            sh.violation(f"C12:jointdensity:mass:differs-from-integral-of-joint-density:d={d}:orthant={orth}",
+                         f"mass({_fmt(a, b)}) = {m}, tensor Gauss-Legendre integral of the implied joint density (Clayton formula written in the check) = {v_own} (+- {err_own})", det)
+        # ---- mass against the integral of the density built from the library's own derivative of the copula
+        if lib_state == "absent":
+            sh.count("library_density_not_available")
+        elif lib_state == "too-many-nodes":
+            sh.count("library_density_skipped_rule_too_large")
+        elif lib_state == "ok":
+            if not math.isfinite(v_lib):
+                sh.count("library_density_not_finite")  # overflow of |prod u|^(-theta-1) in far tails: C11's subject
+                sh.count("oracle_inconclusive")
+            else:
+                sh.count("evaluations")
+                if not core.close(m, v_lib, rtol=1e-8, atol=1e-12 * S):
+                    sh.violation(f"C12:jointdensity:x_first_derivative:integral-of-the-models-joint-density-differs-from-mass:d={d}:orthant={orth}",
+                                 f"mass({_fmt(a, b)}) = {m}, but the integral of copula.x_first_derivative(U(x)) * prod nu_i(x_i) over the rectangle = {v_lib} "
+                                 f"(ratio {v_lib / m if m else float('nan')}; the same rule on the formula written in the check gives {v_own})", det)
     sh.nontriv()
 
 
